@@ -4,9 +4,16 @@ EXTENDS SMFmt, TLC, Json, IOUtils
 VARIABLES l, nbad
 TLog == ndJsonDeserialize(IOEnv.TRACE_FILE)
 
+(* the #BPMS pairs may come in any order: the denotation is that of the list sorted by beat *)
+RECURSIVE SortP(_)
+SortP(b) == IF b = <<>> THEN <<>>
+            ELSE LET i == CHOOSE i \in DOMAIN b : \A j \in DOMAIN b : b[i].p <= b[j].p IN
+                 <<b[i]>> \o SortP([k \in 1..Len(b)-1 |-> IF k < i THEN b[k] ELSE b[k+1]])
+Norm(f) == [f EXCEPT !.bpms = SortP(f.bpms)]
+
 (* C02: the reader's charts are what the tokens denote; float arithmetic: a few ticks *)
 ReadClauses(e) ==
-    LET f == e.file
+    LET f == Norm(e.file)
         tol(d) == 4 + Len(f.bpms)
         n == Len(f.charts)
     IN  IF Len(e.charts) # n THEN [ chart_count |-> FALSE ]
@@ -20,7 +27,7 @@ ReadClauses(e) ==
 
 (* C03: the written tokens are well formed and denote the in-memory set *)
 WriteClauses(e) ==
-    LET f == e.file
+    LET f == Norm(e.file)
         exact == OnMeasureLines(f) /\ e.mem_on_lines
         tol(d) == IF exact THEN 4 + Len(f.bpms) ELSE d.bl \div 96 + 4 + Len(f.bpms)
         n == Len(e.charts)
